@@ -5,6 +5,9 @@ from __future__ import annotations
 import ast
 
 from sa.astutil import (
+    alpha,
+    seq_len,
+    fuse_comprehensions,
     arg_or_kw,
     call_name,
     calls_in,
@@ -93,7 +96,7 @@ def r2_run_space(ctx):
     rets = [r for r in returns_of(pi) if r.value is not None]
     ok, why = False, "unrecognised"
     if len(rets) == 1:
-        v = expand(pi, rets[0].value)
+        v = fuse_comprehensions(expand(pi, rets[0].value))
         why = f"returns {norm(v)[:90]}"
         if isinstance(v, ast.Call) and call_name(v) in ("itertools.product", "product"):
             sa = _star_arg(v)
@@ -120,45 +123,41 @@ def r2_run_space(ctx):
     if not (isinstance(lp.target, ast.Tuple) and len(lp.target.elts) == 2 and all(isinstance(x, ast.Name) for x in lp.target.elts)):
         raise AnalysisError("_product_parameters: loop target is not (indices, params)")
     v_idx, v_par = (x.id for x in lp.target.elts)
-    inner = [l for l in loops_in(lp) if l is not lp and isinstance(l, ast.For)]
-    ok = False
-    why = "no inner pairing loop of keys with values"
-    dict_var = None
-    if len(inner) == 1:
-        il = inner[0]
-        iit = expand(pp, il.iter)
-        if isinstance(iit, ast.Call) and call_name(iit) == "zip" and len(iit.args) == 2 and isinstance(il.target, ast.Tuple) and len(il.target.elts) == 2:
-            ka, va = iit.args
-            kv, vv = (x.id if isinstance(x, ast.Name) else None for x in il.target.elts)
-            keys_ok = isinstance(ka, ast.ListComp) and len(ka.generators) == 1 and dotted(ka.generators[0].iter) == "self.enabled_steps" and not ka.generators[0].ifs and norm(ka.elt) == f"{ka.generators[0].target.id}.key"
-            vals_ok = dotted(va) == v_par
-            # store key->value
-            st_ok = False
-            for n in walk_ordered(il):
-                if isinstance(n, ast.Call) and isinstance(n.func, ast.Attribute) and n.func.attr == "update" and n.args and isinstance(n.args[0], ast.Dict) and len(n.args[0].keys) == 1:
-                    if dotted(n.args[0].keys[0]) == kv and dotted(n.args[0].values[0]) == vv:
-                        st_ok = True
-                        dict_var = dotted(n.func.value)
-                if isinstance(n, ast.Assign) and isinstance(n.targets[0], ast.Subscript) and dotted(n.targets[0].slice) == kv and dotted(n.value) == vv:
-                    st_ok = True
-                    dict_var = dotted(n.targets[0].value)
-            ok = keys_ok and vals_ok and st_ok
-            why = "keys [step.key for step in enabled_steps] zipped with the value tuple" if ok else f"key/value pairing is zip({norm(ka)[:50]}, {norm(va)[:30]})"
-    ctx.check(ok, pp.qual + "#pairing", why, where=pp, node=inner[0].iter if inner else lp)
-    if dict_var:
-        fresh = [st for st, val in local_defs(pp, dict_var) if contains(lp, st) and isinstance(val, ast.Dict) and not val.keys]
-        ctx.check(bool(fresh), pp.qual + "#fresh-dict", "a fresh dict per combination" if fresh else f"`{dict_var}` is shared between combinations (all runs see the last values)", where=pp, node=fresh[0] if fresh else lp)
+    # what is yielded: (indices, {key: value for key, value in zip(keys, values)}) - whether the
+    # dict is filled by an inner loop or built by dict(zip(..)) is the same thing (canonical form)
     ys = [n for n in walk_ordered(lp) if isinstance(n, ast.Yield)]
-    ok = len(ys) == 1 and isinstance(ys[0].value, ast.Tuple) and [dotted(x) for x in ys[0].value.elts] == [v_idx, dict_var] and enclosing_loop(ys[0]) is lp
+    ok = len(ys) == 1 and isinstance(ys[0].value, ast.Tuple) and len(ys[0].value.elts) == 2 and dotted(ys[0].value.elts[0]) == v_idx and enclosing_loop(ys[0]) is lp and not enclosing_tests(ys[0], stop=lp)
     ctx.check(ok, pp.qual + "#yield", "yields (indices, parameter_dict) once per combination" if ok else "does not yield (indices, parameter_dict) once per combination", where=pp, node=ys[0] if ys else lp)
+    if ok:
+        dexpr = ys[0].value.elts[1]
+        dict_var = dotted(dexpr)
+        d = fuse_comprehensions(expand(pp, dexpr))
+        pok, why = False, f"parameter dict is {norm(d)[:90]}: not a pairing of keys with the value tuple"
+        if isinstance(d, ast.DictComp) and len(d.generators) == 1 and not d.generators[0].ifs:
+            gen = d.generators[0]
+            z = gen.iter
+            if isinstance(z, ast.Call) and call_name(z) == "zip" and len(z.args) == 2 and isinstance(gen.target, ast.Tuple) and len(gen.target.elts) == 2:
+                kv, vv = (x.id if isinstance(x, ast.Name) else None for x in gen.target.elts)
+                ka, va = fuse_comprehensions(expand(pp, z.args[0])), z.args[1]
+                keys_ok = isinstance(ka, ast.ListComp) and len(ka.generators) == 1 and dotted(expand(pp, ka.generators[0].iter)) == "self.enabled_steps" and not ka.generators[0].ifs and isinstance(ka.generators[0].target, ast.Name) and norm(ka.elt) == f"{ka.generators[0].target.id}.key"
+                vals_ok = dotted(va) == v_par
+                st_ok = dotted(d.key) == kv and dotted(d.value) == vv
+                pok = keys_ok and vals_ok and st_ok
+                why = "keys [step.key for step in enabled_steps] zipped with the value tuple" if pok else f"key/value pairing is zip({norm(ka)[:50]}, {norm(va)[:30]}) -> {{{norm(d.key)}: {norm(d.value)}}}"
+        ctx.check(pok, pp.qual + "#pairing", why, where=pp, node=dexpr)
+        if dict_var:
+            defs = local_defs(pp, dict_var)
+            fresh = bool(defs) and all(contains(lp, st) for st, _ in defs)
+            ctx.check(fresh, pp.qual + "#fresh-dict", "a fresh dict per combination" if fresh else f"`{dict_var}` is shared between combinations (all runs see the last values)", where=pp, node=defs[0][0] if defs else lp)
 
     # entries
     def entry_check(fq, producer, cls_name):
         f = ctx.func(fq)
         rets = [r for r in returns_of(f) if r.value is not None]
         ok, why = False, "unrecognised"
-        if len(rets) == 1 and isinstance(rets[0].value, ast.ListComp) and len(rets[0].value.generators) == 1:
-            lc = rets[0].value
+        rv = fuse_comprehensions(expand(f, rets[0].value)) if len(rets) == 1 else None
+        if isinstance(rv, ast.ListComp) and len(rv.generators) == 1:
+            lc = rv
             g = lc.generators[0]
             itx = expand(f, g.iter)
             shape = isinstance(itx, ast.Call) and call_name(itx) == "enumerate" and len(itx.args) == 1 and not itx.keywords and isinstance(itx.args[0], ast.Call) and dotted(itx.args[0].func) == f"self.{producer}" and not g.ifs
@@ -393,29 +392,45 @@ def _label_dicts(ctx, fn, lp, vk, vv, vi):
 
 
 ZIP_TABLE = {
+    # pairings whose equal length is NOT derivable by seq_len(): reviewed by hand, keyed by the
+    # rename-invariant text (alpha form, `strict=` removed)
     f"{M}:ProductMode._product_parameters": {
-        "zip(self._product_indices(), itertools.product(*self.enabled_steps), strict=False)": "both enumerate the product of the same ordered step list (C05.R2)",
-        "zip([step.key for step in self.enabled_steps], params, strict=False)": "one key and one product component per enabled step",
+        "zip(self._product_indices(), itertools.product(*self.enabled_steps))": "both enumerate the product of the same ordered step list (C05.R2)",
     },
     f"{M}:SequentialMode.create_params": {
-        "zip(*{step.key: list(step) for step in self.enabled_steps}.values(), strict=False)": "known finding C07.R1 (dask path zips instead of chaining); C05 decides the sequential path",
-        "zip(count(), list(zip(*{step.key: list(step) for step in self.enabled_steps}.values(), strict=False)))": "count() is infinite",
+        "zip(*{step.key: list(step) for step in self.enabled_steps}.values())": "known finding C07.R1 (dask path zips instead of chaining); C05 decides the sequential path",
     },
     f"{M}:convert_custom_data": {
-        "zip(params_names, params_custom_list, strict=False)": "both built from the same all_steps mapping in CustomMode.create_params",
-        "zip(count(idx), params)": "count() is infinite",
+        "zip(params_names, params_custom_list)": "both built from the same all_steps mapping in CustomMode.create_params",
     },
-    f"{M}:Readout.time_step_it": {},
     f"{O}:_add_product_parameters": {
-        "zip(indexes, parameter_dict.items(), strict=False)": "index tuple and parameter dict of one ParameterEntry, built position-aligned (C05.R2)",
+        "zip(indexes, parameter_dict.items())": "index tuple and parameter dict of one ParameterEntry, built position-aligned (C05.R2)",
     },
     f"{OD}:_build_data_tree": {
-        "zip(output_dimensions, data_array_lst, strict=False)": "apply_ufunc returns one array per entry of output_core_dims, which is built from output_dimensions",
+        "zip(output_dimensions, data_array_lst)": "apply_ufunc returns one array per entry of output_core_dims, which is built from output_dimensions",
     },
     f"{OD}:_run_pipelines_array_to_datatree": {
-        "zip(dimension_names, params_tuple, strict=False)": "a dominating length check raises when they differ",
+        "zip(dimension_names, params_tuple)": "a dominating length check raises when they differ",
     },
 }
+
+
+def _zip_text(fn, c):
+    e = alpha(fn, c)
+    if isinstance(e, ast.Call):
+        e.keywords = [k for k in e.keywords if k.arg != "strict"]
+    return norm(e)
+
+
+def _zip_same_length(fn, c) -> bool:
+    """Equal length by construction: every operand has the same seq_len token (endless iterators aside)."""
+    if any(isinstance(a, ast.Starred) for a in c.args) or not c.args:
+        return False
+    toks = [seq_len(fn, a) for a in c.args]
+    finite = [t for t in toks if t != "inf"]
+    if len(finite) <= 1:
+        return True  # paired with endless counters only: nothing can be cut short
+    return None not in finite and len(set(finite)) == 1
 
 
 def dim_names_order(ctx, f):
@@ -488,7 +503,7 @@ def r5_names_and_zips(ctx):
         lc = dd[0][1]
         ifs = [norm(i) for i in lc.generators[0].ifs]
         src = norm(expand(f, lc.generators[0].iter))
-        ok = len(ifs) == 1 and ifs[0].endswith("> 1") and "Counter(" in src and "potential_dim_names.values()" in src
+        ok = len(ifs) == 1 and ifs[0].endswith("> 1") and "Counter(" in src and ".values()" in src
     ctx.check(ok, f.qual + "#duplicates", "duplicates = names used more than once" if ok else "duplicate detection changed", where=f, node=dd[0][0] if dd else f.node)
     # replacement of colliding names: _get_short_name_with_model(<key>) under a membership test in the duplicates
     repl_calls = [c for c in calls_in(f.node) if call_name(c) == "_get_short_name_with_model"]
@@ -545,10 +560,14 @@ def r5_names_and_zips(ctx):
                 if call_name(c) != "zip":
                     continue
                 n += 1
-                txt = norm(expand(fn, c))
-                table = ZIP_TABLE.get(fn.qual, {})
-                ok = txt in table
-                ctx.check(ok, f"{fn.qual}#zip", table.get(txt, "") if ok else f"unreviewed pairing {txt[:110]}: zip silently truncates when the operands differ in length", where=fn, node=c)
+                txt = _zip_text(fn, c)
+                table = {}
+                for q_, t_ in ZIP_TABLE.items():
+                    # the reviewed pairings stay reviewed when the statement moves between a function and its helper
+                    table.update(t_)
+                same = _zip_same_length(fn, c)
+                ok = same or txt in table
+                ctx.check(ok, f"{fn.qual}#zip", ("operands have the same length by construction" if same else table.get(txt, "")) if ok else f"unreviewed pairing {txt[:110]}: zip silently truncates when the operands differ in length", where=fn, node=c)
     ctx.floor(n, 8)
     d = ctx.func(f"{OD}:_run_pipelines_array_to_datatree")
     g = ctx.cfg(d)
